@@ -2,6 +2,7 @@ package world
 
 import (
 	"encoding/json"
+	"flag"
 	"fmt"
 	"io"
 	"reflect"
@@ -42,6 +43,11 @@ var initOnce sync.Once
 func GlobalInit() {
 	initOnce.Do(func() {
 		debug.SetGCPercent(400)
+		fs := flag.NewFlagSet("klog", flag.ContinueOnError)
+		klog.InitFlags(fs)
+		fs.Set("logtostderr", "false")
+		fs.Set("alsologtostderr", "false")
+		fs.Set("stderrthreshold", "FATAL")
 		klog.LogToStderr(false)
 		klog.SetOutput(io.Discard)
 		retry.DefaultRetry.Duration = 0
